@@ -1039,8 +1039,11 @@ class ConfigInformation:
 
         # --- Submit the job
 
-        # Sets the init tasks
+        # Sets the init tasks (they are part of the full identifier: forget
+        # the one cached if the configuration was already sealed, e.g. by
+        # instance(), and its identifier requested)
         self.init_tasks = init_tasks
+        self._full_identifier = None
 
         # Creates a new job
         self.job = self.xpmtype.task(
